@@ -566,6 +566,8 @@ def compile_assign(
            for t in (target if chained else [target])]
 
         if ann is not None:
+            if not isinstance(st_targets[0], (ast.Name, ast.Attribute, ast.Subscript)):
+                compiler._syntax_error(target, "illegal target for annotation")
             ann_result = compiler.compile(ann)
             result = ann_result + result
 
